@@ -22,7 +22,7 @@ MANIFEST = {
             "dispatch of encoding classes without a class theorem, the opcode tables. Trusted: Lean kernel + bv_decide certificates; "
             "Spec/X86Decode.lean as the reading of the SDM; db/x86.js + tools/gen_c01.py (with its listed database errata); harness/driver/diff.",
 }
-MODS = ["AsmjitVerif.Props.C01", "AsmjitVerif.Props.C01Front", "AsmjitVerif.Props.C01Rows", "AsmjitVerif.Props.C01Front32", "AsmjitVerif.Props.C01Rows32", "AsmjitVerif.Props.C01FrontMem", "AsmjitVerif.Props.C01FrontMemG", "AsmjitVerif.Props.C01FrontMemV", "AsmjitVerif.Props.C01FrontMemX", "AsmjitVerif.Props.C01RowsMem", "AsmjitVerif.Props.C01FrontDec", "AsmjitVerif.Props.C01FrontMemB", "AsmjitVerif.Props.C01RowsMemB", "AsmjitVerif.Props.C01FrontLeg32", "AsmjitVerif.Props.C01FrontArith", "AsmjitVerif.Props.C01RowsArith", "AsmjitVerif.Props.C01FrontOpReg", "AsmjitVerif.Props.C01FrontLegMem", "AsmjitVerif.Props.C01RowsLegMem", "AsmjitVerif.Props.C01RowsMov", "AsmjitVerif.Props.C01FrontMr", "AsmjitVerif.Props.C01RowsMr", "AsmjitVerif.Props.C01FrontRel"]
+MODS = ["AsmjitVerif.Props.C01", "AsmjitVerif.Props.C01Front", "AsmjitVerif.Props.C01Rows", "AsmjitVerif.Props.C01Front32", "AsmjitVerif.Props.C01Rows32", "AsmjitVerif.Props.C01FrontMem", "AsmjitVerif.Props.C01FrontMemG", "AsmjitVerif.Props.C01FrontMemV", "AsmjitVerif.Props.C01FrontMemX", "AsmjitVerif.Props.C01RowsMem", "AsmjitVerif.Props.C01FrontDec", "AsmjitVerif.Props.C01FrontMemB", "AsmjitVerif.Props.C01RowsMemB", "AsmjitVerif.Props.C01FrontLeg32", "AsmjitVerif.Props.C01FrontArith", "AsmjitVerif.Props.C01RowsArith", "AsmjitVerif.Props.C01FrontOpReg", "AsmjitVerif.Props.C01FrontLegMem", "AsmjitVerif.Props.C01RowsLegMem", "AsmjitVerif.Props.C01RowsMov", "AsmjitVerif.Props.C01FrontMr", "AsmjitVerif.Props.C01RowsMr", "AsmjitVerif.Props.C01FrontRel", "AsmjitVerif.Props.C01FrontAbs"]
 BASE = c01_forms.BASE_ADDR
 
 # classes of known, not (yet) repaired findings -> stable keys (known_findings.json)
@@ -35,6 +35,8 @@ KEY_GROUPS = [
 
 
 def key_of(name, reason, form=None):
+    if form and "AH with an absolute address" in str(form.get("opcodeString", "")):
+        return "mov-ah-moffs"
     if "gather/scatter without a mask register" in reason:
         return "evex-gather-scatter-without-mask"
     if "{z} with a memory destination" in reason:
@@ -96,6 +98,192 @@ def run_resilient(cmd, lines):
     return out, [a for a in aborts if a]
 
 
+# ---- which sweep calls fall inside the domain (WF predicate) of some class theorem ------------------------------------------------
+# An approximation in Python of the hypotheses of the `front_cls_correct_*` theorems + their dispatch lemmas (Props/C01*.lean): encoding
+# class of the row, operand signature, the instruction has an entry in the chunk the theorem ranges over, mode, options, address form.
+VEX_SHAPE = {0x72: "rvm", 0x75: "rvm", 0x73: "rvm", 0x76: "rvm", 0x68: "rm", 0x6B: "rm", 0x7A: "rvmi", 0x7C: "rvmi", 0x7B: "rvmi", 0x7D: "rvmi",
+             0x6F: "rmi", 0x71: "rmi",
+             0x62: "mr", 0x64: "mri", 0x65: "mri"}
+VEX_SIG = {"rvm": "RRX", "rm": "RX", "rvmi": "RRXI", "rmi": "RXI", "mr": "XR", "mri": "XRI"}
+GP = ("gpb", "gpbhi", "gpw", "gpd", "gpq")
+
+
+def encoding_names():
+    """encoding class id -> enum name, read from x86instdb_p.h (used for the statistic's labels only)"""
+    import re
+    try:
+        src = (vlib.REPO / "asmjit/x86/x86instdb_p.h").read_text()
+        body = src[src.index("enum EncodingId"):]
+        body = body[:body.index("kEncodingCount")]
+        names = re.findall(r"^\s*kEncoding(\w+)", body, re.M)
+        return {i: n for i, n in enumerate(names)}
+    except Exception:
+        return {}
+
+
+def _addr_form_ok(m, mode, vex):
+    """memory operand `M:size:bt:bid:it:iid:shift:disp:seg:bcst:at` inside an AddrForm / AddrFormL instance (64-bit mode)"""
+    _, size, bt, bid, it, iid, shift, disp, seg, bc, at = m.split(":")
+    if mode != 64:
+        return None
+    d = int(disp, 16)
+    if bt in ("gpq", "gpd") and it == "none":
+        return "base"
+    if bt in ("gpq", "gpd") and it == bt and int(iid) != 4:
+        return "index"
+    if bt == "rip" and it == "none":
+        return "rip"
+    if bt == "none" and it == "none" and at in ("0", "1") and bc == "0" and (d < 2 ** 31 or d >= 2 ** 64 - 2 ** 31):
+        return "abs"
+    return None       # label, index without base, 16-bit, VSIB, 64-bit / zero-extended absolute, relative
+
+
+def theorem_family(ew, enc, names):
+    """ew: fields of the emit line; enc: encoding class of the instruction row; names: gen_c01.COVER_NAMES -> family name or None"""
+    mode, name, opts, k, ops = int(ew[0]), ew[3], ew[4], ew[5], ew[6:]
+    optl = [] if opts == "-" else opts.split(",")
+    sig = "".join(o[0] for o in ops)
+    regs = [o.split(":")[1] if o[0] == "R" else None for o in ops]
+    mems = [o for o in ops if o[0] == "M"]
+    imms = [int(o[2:], 16) for o in ops if o[0] == "I"]
+    def s64(v):
+        return v - 2 ** 64 if v >= 2 ** 63 else v
+    def inn(shape):
+        return name in names.get(shape, ())
+    af = _addr_form_ok(mems[0], mode, False) if mems else None
+    if mems and len(mems) == 1 and af is None and mode == 64 and opts == "-" and k == "-" and enc in (0x2C, 0x2D) and sig in ("RM", "MR"):
+        f = mems[0].split(":")
+        accop = (ops[0] if sig == "RM" else ops[1]).split(":")
+        if f[2] == "none" and f[4] == "none" and f[8] == "0" and accop[1] in ("gpb", "gpw", "gpd", "gpq") and accop[2] == "0" and \
+                (enc == 0x2D or (int(f[7], 16) > 0xFFFFFFFF and int(f[7], 16) < 2 ** 64 - 2 ** 31 and f[10] != "2")):
+            return "mov_moffs"
+    if mems and (len(mems) > 1 or af is None):
+        return None
+    bc = mems[0].split(":")[9] != "0" if mems else False
+    # --- VEX / EVEX classes
+    if enc in VEX_SHAPE or enc in (0x83, 0x84):
+        sh = VEX_SHAPE[enc] if enc in VEX_SHAPE else ("mr" if sig == "MR" else "rm")      # VexRmMr: loads in `rm`, stores in `mr`
+        want = VEX_SIG[sh]
+        if len(sig) != len(want) or any(w != "X" and w != s for w, s in zip(want, sig)) or not inn(sh):
+            return None
+        xi = want.index("X")
+        if sig[xi] == "R":
+            if any(o not in ("z", "er", "sae", "rn", "rd", "ru", "rz") for o in optl):
+                return None
+            if mode == 32:
+                return "vex_reg32" if not optl and k == "-" and sh in ("rvm", "rm", "rvmi", "rmi") else None
+            if sh in ("mr", "mri") and (optl or k != "-"):
+                return None
+            return "vex_reg" + ("_dec" if optl or k != "-" else "")
+        if sig[xi] == "M" and mode == 64:
+            if any(o != "z" for o in optl):
+                return None
+            if bc and (sh in ("mr", "mri") or af == "abs"):
+                return None
+            return "vex_mem_" + af + ("_bcst" if bc else "")
+        return None
+    if mode == 32:
+        if not optl and k == "-" and not mems and ((enc in (0x4A, 0x4D, 0x14, 0x16) and sig == "RR" and inn("lrm")) or
+                                               (enc in (0x17, 0x18) and sig == "RR" and inn("lmr")) or (enc in (0x52, 0x53) and sig == "RRI" and inn("lrmi"))):
+            return "leg_reg32"
+        return None
+    if k != "-":
+        return None
+    if optl and not (optl == ["modmr"] and enc == 0x56 and sig == "RR"):
+        return None
+    plain = lambda r: r not in ("gpb", "gpbhi", "sreg")
+    wide = lambda r: r in ("gpw", "gpd", "gpq")
+    if enc in (0x4A, 0x4D, 0x14, 0x16, 0x56) and sig in ("RR", "RM") and inn("lrm") and plain(regs[0]) and (sig == "RM" or plain(regs[1])):
+        return "leg_rm" + ("_mem_" + af if mems else "")
+    if enc in (0x17, 0x18, 0x56) and sig in ("RR", "MR") and inn("lmr") and plain(regs[1]) and (sig == "MR" or plain(regs[0])):
+        return "leg_mr" + ("_mem_" + af if mems else "")
+    if enc in (0x52, 0x53) and sig in ("RRI", "RMI") and inn("lrmi") and plain(regs[0]):
+        return "leg_rmi" + ("_mem_" + af if mems else "")
+    if enc == 0x01 and sig == "" and inn("lop"):
+        return "x86op"
+    if enc == 0x21:
+        if sig == "RR" and wide(regs[0]) and inn("lrm"):
+            return "imul_rr"
+        if sig == "RM" and wide(regs[0]) and inn("lrm"):
+            return "imul_rm_" + af
+        return None
+    if enc in (0x19, 0x3D):
+        if sig == "RR" and all(r in GP for r in regs):
+            return "arith_rr"
+        if sig in ("RM", "MR") and wide(regs[0] or regs[1]) and (enc == 0x19 or sig == "MR"):
+            return "arith_mem_" + af
+        if sig == "RI":
+            rid = int(ops[0].split(":")[2])
+            acc = rid == 0 and regs[0] != "gpbhi"
+            v = imms[0]
+            if regs[0] in ("gpb", "gpbhi"):
+                return "acc_imm" if acc else ("arith_r8_imm8" if enc == 0x19 else None)
+            if not wide(regs[0]):
+                return None
+            if enc == 0x3D:
+                return "acc_imm" if acc else None
+            vv = s64(v)
+            if regs[0] == "gpd":
+                vv = s64(v) & 0xFFFFFFFF
+                vv = vv - 2 ** 32 if vv >= 2 ** 31 else vv
+            if -128 <= vv <= 127:
+                return "arith_imm8s"
+            if regs[0] == "gpq" and not -2 ** 31 <= vv < 2 ** 31:
+                return None          # `and r64, immu32` path / refused
+            return "acc_imm" if acc else "arith_imm"
+        if sig == "MI":
+            size = int(mems[0].split(":")[1])
+            if size in (1, 2, 4, 8) and (size != 8 or -2 ** 31 <= s64(imms[0]) < 2 ** 31):
+                return ("arith_mi_" if enc == 0x19 else "test_mi_") + af
+        return None
+    if enc == 0x37:
+        if sig == "RI" and regs[0] in GP:
+            return "rot_1" if imms[0] & 0xFF == 1 else "rot_imm"
+        if sig == "RR" and regs[0] in GP and ops[1] == "R:gpb:1":
+            return "rot_cl"
+        if sig == "MI" and int(mems[0].split(":")[1]) in (1, 2, 4, 8):
+            return ("rot_mi_" if imms[0] & 0xFF != 1 else "rot_m1_") + af
+        if sig == "MR" and ops[1] == "R:gpb:1" and int(mems[0].split(":")[1]) in (1, 2, 4, 8):
+            return "rot_mcl_" + af
+        return None
+    if enc in (0x33, 0x35) and sig == "R" and regs[0] in ("gpw", "gpq"):
+        return "pushpop_reg"
+    if enc == 0x2B and sig == "RM" and wide(regs[0]):
+        return "lea_" + af
+    if enc == 0x2C:
+        if sig == "RR":
+            if all(r in GP for r in regs) and (regs[0] == regs[1] or all(r in ("gpb", "gpbhi") for r in regs)):
+                return "mov_rr"
+            if sorted(regs) in (["creg", "gpq"], ["dreg", "gpq"]):
+                return "mov_crdr"
+            if "sreg" in regs and any(wide(r) for r in regs):
+                return "mov_sreg"
+            return None
+        if sig in ("RM", "MR"):
+            r = regs[0] or regs[1]
+            rid = int((ops[0] if sig == "RM" else ops[1]).split(":")[2])
+            if wide(r) and not (rid == 0 and af == "abs"):
+                return "mov_mem_" + af
+            return None
+        if sig == "RI" and wide(regs[0]):
+            if regs[0] == "gpq" and -2 ** 31 <= s64(imms[0]) < 2 ** 31:
+                return "mov_r64_imm32"
+            return "mov_ri"
+        if sig == "MI" and int(mems[0].split(":")[1]) in (1, 2, 4, 8) and (int(mems[0].split(":")[1]) != 8 or -2 ** 31 <= s64(imms[0]) < 2 ** 31):
+            return "mov_mi_" + af
+        return None
+    if enc in (0x26, 0x28, 0x1C) and sig == "L":
+        return "rel_bound_label"
+    if enc == 0x0E and sig == "M" and inn("lm") and name != "fstcw":
+        return "m_only_" + af
+    if enc == 0x38 and inn("lm"):
+        if sig == "M":
+            return "set_m_" + af
+        if sig == "R" and regs[0] in ("gpb", "gpbhi"):
+            return "set_r"
+    return None
+
+
 def build_sweep(kept, rng, tier):
     """emit lines (without the leading 'emit') + the form each came from"""
     emits, meta = [], []
@@ -118,6 +306,14 @@ def build_sweep(kept, rng, tier):
         for kk in ("kmovw", "kmovd", "kmovq", "kmovb"):
             emits.append("%d %x 16 %s modmr - R:k:1 R:k:2" % (m, BASE, kk))
             meta.append({"name": kk, "opcodeString": "probe"})
+        # AH shares the register id of AL: the accumulator-only moffs forms must not be chosen for it
+        for tail in ("mov - - R:gpbhi:0 M:1:none:0:none:0:0:1000:0:0:0", "mov - - M:1:none:0:none:0:0:1000:0:0:0 R:gpbhi:0",
+                     "mov - - R:gpbhi:0 M:1:none:0:none:0:0:1000:5:0:1", "mov - - R:gpbhi:1 M:1:none:0:none:0:0:1000:0:0:0") + \
+                (("mov - - R:gpbhi:0 M:1:none:0:none:0:0:123456789a:0:0:0", "mov - - M:1:none:0:none:0:0:123456789a:0:0:0 R:gpbhi:0",
+                  "movabs - - R:gpbhi:0 M:1:none:0:none:0:0:123456789a:0:0:0", "movabs - - M:1:none:0:none:0:0:123456789a:0:0:0 R:gpbhi:0")
+                 if m == 64 else ()):
+            emits.append("%d %x 16 %s" % (m, BASE, tail))
+            meta.append({"name": tail.split()[0], "opcodeString": "probe (AH with an absolute address)"})
     return emits, meta
 
 
@@ -171,6 +367,11 @@ def run(res):
     rows_out, rc, err = vlib.run_lines([str(h)], ["row " + n for n in names])
     rows = {n: r.split()[1:] for n, r in zip(names, rows_out) if r.startswith("row ") and r != "row none"}
 
+    # instruction ids the model refers to by number (Model/X86Front.lean: Row.ctx isLea, emitInst erSaeBan)
+    for nm, want in (("lea", 375), ("vcvtsi2sd", 882), ("vcvtusi2sd", 915), ("vcmpsd", 832), ("vcmpss", 834)):
+        idr, _, _ = vlib.run_lines([str(h)], ["row " + nm])
+        if idr and idr[0].startswith("row ") and idr[0] != "row none" and int(idr[0].split()[1]) != want:
+            broken.append("instruction id of %s is %s, the model assumes %d (Model/X86Front.lean)" % (nm, idr[0].split()[1], want))
     chk, cidx, enc, eidx = [], [], [], []
     state_bad = []
     for i, (e, o) in enumerate(zip(emits, impl)):
@@ -220,6 +421,31 @@ def run(res):
     res.coverage["exhaustive"] = False
     res.coverage["monitored_answers"] = len(chk)
     res.coverage["modelled_calls_compared"] = modelled
+    # fraction of the accepted calls that lie inside the domain of some class theorem (see theorem_family)
+    try:
+        if not gen_c01.COVER_NAMES:
+            gen_c01.class_rows_lean(kept, instruction_rows(h, kept))
+        fam = collections.Counter()
+        outside = collections.Counter()
+        encn = encoding_names()
+        for i in acc:
+            ew = emits[i].split()
+            if ew[3] not in rows:
+                continue
+            encid = int(rows[ew[3]][1])
+            t = theorem_family(ew, encid, gen_c01.COVER_NAMES)
+            if t:
+                fam[t.split("_mem_")[0] + ("_mem" if "_mem_" in t else "")] += 1
+            else:
+                outside["(32-bit mode, any class)" if ew[0] == "32" else encn.get(encid, "enc_%02x" % encid)] += 1
+        ncov = sum(fam.values())
+        res.coverage["class_theorem_domain"] = {
+            "accepted_calls": len(acc), "inside_some_theorem": ncov, "fraction": round(ncov / max(1, len(acc)), 4),
+            "fraction_64bit": round(ncov / max(1, sum(1 for i in acc if emits[i].startswith("64 "))), 4),
+            "by_family": dict(fam.most_common()), "outside_by_encoding_class": dict(outside.most_common()),
+            "note": "Python approximation of the hypotheses of the front_cls_correct_* theorems and their dispatch lemmas"}
+    except Exception as ex:
+        res.notes.append("class-theorem domain statistic not computed: %r" % ex)
     res.coverage["traces_validated_against_impl"] = modelled
     kinds = collections.Counter()
     for e, o in zip(emits, impl):
